@@ -114,6 +114,11 @@ class DocGen:
         (DATE, "12:00:00+01"), (DATE, "2001-01-01T12:00:00-05:30"),
         (DATE, "12:30"), (DATE, "2001-01-01T01:02:03"), (DATE, "23:59:60"),
         (DATE, "2001-366"), (DATE, "2001-01-01T23:59:60.5Z"),
+        (DATE, "12:00:00+0130"), (DATE, "2001-01-01T12:00:00-0530"),
+        (DATE, "2001-001T01:10:39+7"), (DATE, "12:00:00-12"),
+        (DATE, "01:02:03.5+0000"), (DATE, "2001-01-01T12:00:00.123Z"),
+        (DATE, "2001-01-01T24:00:00"), (DATE, "2001-02-30"),
+        (DATE, "12:00:00+1360"), (DATE, "2001-01-01T12:00+01"),
         (STR, '"line one\n   line two"'), (STR, '"dash-\n     continued"'),
         (STR, '"dash-\r\n     continued"'), (STR, '"dash-\f  continued"'),
         (STR, '"first line\nEND\nlast line"'), (STR, "'a\r\n  End \r\nb'"),
